@@ -554,6 +554,8 @@ pub fn run(tier: &str) -> i32 {
             });
         }
     });
+    let rotating = rotating_log_part(&v, tier);
+    ev.set("child_whose_operation_log_rotates_every_four_records", rotating);
     let large = large_catch_ups(&v, if thorough { 96 } else { 8 }, seed());
     ev.set("catch_ups_of_more_than_a_hundred_commands", large);
     let s = st.into_inner().unwrap();
@@ -592,6 +594,66 @@ pub fn run(tier: &str) -> i32 {
     }
     println!("C05 {}: {} runs ({} full, {} incremental syncs), {} shapes, {} catch-up lines, {} keys compared, {} violations", tier, s.runs, s.full_syncs, s.incremental_syncs, s.shapes.len(), s.sync_lines, s.keys_compared, v.violation_count());
     code
+}
+
+// ---------------------------------------------------------------- the directed scenarios over an operation log that rotates
+/// NUN_MAX_OP_LOG_SIZE is read once per process, so the part runs in a child: with 1000 bytes the log starts a new file
+/// every four records (and is never pruned within a scenario: that would need more than forty). The joiner leaves with a
+/// valid log; while it is away the primary makes 9-21 more writes (several rotations) and then the directed operations
+/// (update / create-db / remove in every order), so the joiner's last operation lies in an OLD segment of the primary's
+/// log. Same oracle as everywhere: the joiner ends with the primary's keys, removed keys removed.
+fn rotating_log_part(v: &Verdicts, tier: &str) -> serde_json::Value {
+    let exe = std::env::current_exe().unwrap();
+    let out = std::process::Command::new(&exe).args(["c05-rotating", tier, &seed().to_string()]).env("NUN_MAX_OP_LOG_SIZE", "1000").env("VERIF_SEED", seed().to_string()).output();
+    let Ok(o) = out else {
+        v.inconclusive("rotating-log child could not be started");
+        return json!({"runs": 0});
+    };
+    let txt = String::from_utf8_lossy(&o.stdout).to_string();
+    let Some(doc) = txt.lines().rev().find_map(|l| serde_json::from_str::<serde_json::Value>(l).ok().filter(|d| d.get("reports").is_some())) else {
+        v.inconclusive(&format!("rotating-log child gave no result: {}", String::from_utf8_lossy(&o.stderr).lines().last().unwrap_or("")));
+        return json!({"runs": 0});
+    };
+    for r in doc["reports"].as_array().cloned().unwrap_or_default() {
+        let mut case = r["case"].clone();
+        case["operation_log"] = json!("rotates-every-four-records (child process with NUN_MAX_OP_LOG_SIZE=1000)");
+        v.report(r["signature"].clone(), case);
+    }
+    json!({"runs": doc["runs"], "full_syncs": doc["full"], "incremental_syncs": doc["incremental"], "keys_compared": doc["keys_compared"], "rotated_segments_of_the_primary_at_the_rejoin_min_max": doc["segments"]})
+}
+
+pub fn rotating_child(args: &[String]) -> i32 {
+    std::env::set_var("NUN_ELECTION_TIMEOUT", "30");
+    quiet_panics();
+    let thorough = args.get(2).map(|s| s == "thorough").unwrap_or(false);
+    let v = Verdicts::load("C05-rotating-log-child");
+    let st = Mutex::new(Stats { runs: 0, shapes: BTreeSet::new(), sync_lines: 0, keys_compared: 0, full_syncs: 0, incremental_syncs: 0, inconclusive: 0, primary_changes: 0, failovers_not_clean: 0, samples: vec![] });
+    let directed: Vec<Scenario> = directed_scenarios().into_iter().filter(|s| !s.bystander).collect();
+    let n = if thorough { directed.len() * 2 } else { 48 };
+    let next = std::sync::atomic::AtomicUsize::new(0);
+    std::thread::scope(|sc| {
+        for _ in 0..workers() {
+            let (next, v, st, directed) = (&next, &v, &st, &directed);
+            sc.spawn(move || loop {
+                let i = next.fetch_add(1, std::sync::atomic::Ordering::SeqCst);
+                if i >= n {
+                    break;
+                }
+                let mut r = Rng::new(seed().wrapping_mul(9_000_011).wrapping_add(i as u64));
+                let mut scn = directed[r.below(directed.len())].clone();
+                // 9-21 writes of other keys first: the log turns over two to five times before the directed operations
+                let pad = 9 + 4 * r.below(4);
+                let mut away: Vec<Op> = (0..pad).map(|p| Op::Set(0, format!("p{}", p % 5), p % VALUES.len())).collect();
+                away.extend(scn.away.clone());
+                scn.away = away;
+                run_scenario(&scn, r.next(), v, st);
+            });
+        }
+    });
+    let s = st.into_inner().unwrap();
+    cleanup_scratch();
+    println!("{}", json!({"runs": s.runs, "full": s.full_syncs, "incremental": s.incremental_syncs, "keys_compared": s.keys_compared, "segments": serde_json::Value::Null, "reports": v.reports_json()}));
+    0
 }
 
 // ---------------------------------------------------------------- free-running part: a catch-up racing live writes
